@@ -52,8 +52,8 @@ theorem SV.filter {st : Store} (h : SV c st) (p : Rec → Bool) : SV c (st.filte
 
 theorem SV.del {st : Store} (h : SV c st) (k : RKey) : SV c (st.del k) := h.filter _
 
-theorem SV.foldl_del (f : Nat → RKey) :
-    ∀ (l : List Nat) (st : Store), SV c st → SV c (l.foldl (fun st n => st.del (f n)) st)
+theorem SV.foldl_del {α : Type} (f : α → RKey) :
+    ∀ (l : List α) (st : Store), SV c st → SV c (l.foldl (fun st n => st.del (f n)) st)
   | [], _, hs => hs
   | n :: l, st', hs => by rw [List.foldl_cons]; exact SV.foldl_del f l _ (hs.del _)
 
@@ -75,7 +75,7 @@ theorem nodeRec_ok (name : Nat) : RecOk c (nodeRec name) := by
   subst hf
   rfl
 
-theorem metaRec_ok (name nonce : Nat) (vs : List Nat) (r : Option Nat) : RecOk c (metaRec name nonce vs r) := by
+theorem metaRec_ok (name nonce : Nat) (vs : List Ver) (r : Option Nat) : RecOk c (metaRec name nonce vs r) := by
   refine Or.inr fun f hf p _ => ?_
   unfold metaRec at hf
   simp only [List.mem_append, List.mem_cons, List.mem_nil_iff, or_false] at hf
@@ -162,11 +162,11 @@ theorem guarded_sv (hc : c.Adm) {s : State} (h : SV c s.store) {now req sec : Na
 @[simp] theorem addAccess_store (s : State) (ent sec : Nat) (l : Level) (x : Option Nat) :
     (s.addAccess ent sec l x).store = s.store := rfl
 
-theorem pruneVersions_sv (maxV name : Nat) (vs : List Nat) {st : Store} (h : SV c st) :
+theorem pruneVersions_sv (maxV name : Nat) (vs : List Ver) {st : Store} (h : SV c st) :
     SV c (pruneVersions maxV name vs st).2 := by
   unfold pruneVersions
   simp only
-  exact SV.foldl_del (fun n => RKey.blob name n) _ _ h
+  exact SV.foldl_del (fun v : Ver => RKey.blob name v.nonce) _ _ h
 
 theorem set_sv (hc : c.Adm) {s : State} (h : SV c s.store) (now req sec val size : Nat) :
     SV c (s.set now req sec val size).1.store := by
@@ -223,7 +223,7 @@ theorem delete_sv (hc : c.Adm) {s : State} (h : SV c s.store) (now req sec : Nat
     apply audit_sv _ _ _ _ _ nil_ok
     apply persistTtl_sv hc
     simp only
-    exact ((SV.foldl_del (fun n => RKey.blob sec n) m.versions _ hs').del _).del _
+    exact ((SV.foldl_del (fun v : Ver => RKey.blob sec v.nonce) m.versions _ hs').del _).del _
 
 theorem grantCore_sv (hc : c.Adm) {s : State} (h : SV c s.store) (now req ent sec : Nat) (l : Level) (x : Option Nat) :
     SV c (s.grantCore now req ent sec l x).1.store := by
@@ -334,6 +334,84 @@ theorem undelegate_sv (hc : c.Adm) {s : State} (h : SV c s.store) (parent child 
     rw [foldl_drop_store]
     exact h
 
+theorem wrapRec_ok (id val : Nat) : RecOk c (wrapRec id val) := by
+  refine Or.inr fun f hf p _ => ?_
+  simp only [wrapRec, List.mem_cons, List.mem_nil_iff, or_false] at hf
+  rcases hf with rfl | rfl | rfl | rfl | rfl <;> rfl
+
+theorem getVersion_sv (hc : c.Adm) {s : State} (h : SV c s.store) (now req sec ver : Nat) :
+    SV c (s.getVersion now req sec ver).1.store := by
+  unfold State.getVersion
+  refine guarded_sv hc h (fun s' hs' => ?_)
+  split
+  · exact hs'
+  · split <;> exact hs'
+
+theorem versionCount_sv (hc : c.Adm) {s : State} (h : SV c s.store) (now req sec : Nat) :
+    SV c (s.versionCount now req sec).1.store := by
+  unfold State.versionCount
+  refine guarded_sv hc h (fun s' hs' => ?_)
+  split <;> exact hs'
+
+theorem rollback_sv (hc : c.Adm) {s : State} (h : SV c s.store) (now req sec ver : Nat) :
+    SV c (s.rollback now req sec ver).1.store := by
+  unfold State.rollback
+  refine guarded_sv hc h (fun s' hs' => ?_)
+  split
+  · exact hs'
+  · split
+    · exact hs'
+    · exact set_sv hc hs' _ _ _ _ _
+
+theorem batchGet_sv (hc : c.Adm) {s : State} (h : SV c s.store) (now req : Nat) (secs : List Nat) :
+    SV c (s.batchGet now req secs).1.store := by
+  unfold State.batchGet
+  exact audit_sv (cleanup_sv hc h now) _ _ _ _ nil_ok
+
+theorem batchSet_sv (hc : c.Adm) {s : State} (h : SV c s.store) (now req : Nat) (entries : List (Nat × Nat × Nat)) :
+    SV c (s.batchSet now req entries).1.store := by
+  unfold State.batchSet
+  split
+  · exact h
+  · exact audit_sv (batchSet_fold_inv (fun s => SV c s.store) now req
+      (fun s sec val size hs => set_sv hc hs now req sec val size) entries (s, []) h) _ _ _ _ nil_ok
+
+theorem wrap_sv (hc : c.Adm) {s : State} (h : SV c s.store) (now req sec : Nat) :
+    SV c (s.wrap now req sec).1.store := by
+  unfold State.wrap
+  refine guarded_sv hc h (fun s' hs' => ?_)
+  have hg := get_sv hc hs' now req sec
+  generalize s'.get now req sec = r at hg
+  obtain ⟨s'', resp⟩ := r
+  cases resp <;> first | exact hg | exact audit_sv (hg.put (wrapRec_ok _ _)) _ _ _ _ nil_ok
+
+theorem unwrap_sv {s : State} (h : SV c s.store) (token : Nat) : SV c (s.unwrap token).1.store := by
+  unfold State.unwrap
+  split
+  · exact h
+  · exact audit_sv (h.del _) _ _ _ _ nil_ok
+
+theorem dropRecord_store (d : DelegRec) (s : State) : (s.dropRecord d).store = s.store := by
+  unfold State.dropRecord
+  exact foldl_drop_store d.child d.secrets s
+
+theorem foldl_dropRecord_store : ∀ (ds : List DelegRec) (s : State), (ds.foldl State.dropRecord s).store = s.store
+  | [], _ => rfl
+  | d :: rest, s => by rw [List.foldl_cons, foldl_dropRecord_store rest, dropRecord_store]
+
+theorem undelegateCascade_sv (hc : c.Adm) {s : State} (h : SV c s.store) (parent child : Nat) :
+    SV c (s.undelegateCascade parent child).1.store := by
+  unfold State.undelegateCascade
+  simp only
+  apply persistTtl_sv hc
+  apply persistDelegs_sv hc
+  rw [foldl_dropRecord_store]
+  exact h
+
+theorem reopen_sv (hc : c.Adm) {s : State} (h : SV c s.store) (now : Nat) : SV c (s.reopen now).1.store := by
+  unfold State.reopen
+  exact cleanup_sv hc (s := { s with ttl := s.pttl, delegs := s.pdelegs }) h now
+
 theorem step_sv (hc : c.Adm) {s : State} (h : SV c s.store) (t : Nat) (op : Op) : SV c (step s t op).1.store := by
   cases op with
   | set req sec val size => exact set_sv hc h t req sec val size
@@ -348,6 +426,16 @@ theorem step_sv (hc : c.Adm) {s : State} (h : SV c s.store) (t : Nat) (op : Op) 
   | undelegate p ch => exact undelegate_sv hc h p ch
   | addMember a b => exact h
   | delMember a b => exact h
+  | addEdge a b k => exact h
+  | getVersion req sec ver => exact getVersion_sv hc h t req sec ver
+  | versions req sec => exact versionCount_sv hc h t req sec
+  | rollback req sec ver => exact rollback_sv hc h t req sec ver
+  | batchGet req secs => exact batchGet_sv hc h t req secs
+  | batchSet req entries => exact batchSet_sv hc h t req entries
+  | wrap req sec => exact wrap_sv hc h t req sec
+  | unwrap token => exact unwrap_sv h token
+  | undelegateCascade p ch => exact undelegateCascade_sv hc h p ch
+  | reopen => exact reopen_sv hc h t
 
 theorem run_sv (hc : c.Adm) : ∀ (h : List (Nat × Op)) (s : State), SV c s.store → SV c (run s h).store
   | [], _, hs => hs
